@@ -84,6 +84,10 @@ func genBytes(emit func(Case) bool, mainLen, impLen, classLen int) {
 // sequences reach the type checks instead of stopping at "not defined".
 const tokenPrelude = "var x int\nvar s []int\nfunc f() {\n}\nfunc g() (int, int) {\nreturn 1, 2\n}\n"
 
+// shortTokenPrelude is used for the longest sequences (the repository's lexer
+// costs about 10 microseconds per input byte, the prelude dominates the cost).
+const shortTokenPrelude = "var x int\nvar s []int\nfunc f() {\n}\n"
+
 // coreTokens (30): used up to the longest sequence length.
 var coreTokens = []string{"x", "s", "f", "g", "1", `"a"`, "(", ")", "[", "]", "{", "}", "\n",
 	"=", ":=", "+", "==", "!", ",", ":", ";", ".", "@", "var", "func", "if", "for", "return", "import", "int"}
@@ -94,7 +98,11 @@ var moreTokens = []string{"y", "true", "nil", "&&", "++", "+=", "|", "-1", "else
 
 func genTokens(emit func(Case) bool, alphabet []string, minLen, maxLen int, tag string) {
 	idx := make([]int, maxLen)
-	for _, prelude := range []string{"", tokenPrelude} {
+	preludes := []string{"", tokenPrelude}
+	if maxLen >= 4 {
+		preludes = []string{"", shortTokenPrelude}
+	}
+	for _, prelude := range preludes {
 		pname := "none"
 		if prelude != "" {
 			pname = "decls"
